@@ -430,13 +430,15 @@ Inductive op :=
 | ODirect (d : dinfo)                               (* OnDispatchEnd called with this info *)
 | OUnary (q : req_env)                              (* HTTP POST /m, or a pipe unary call when no egress *)
 | OPipeStream (q : req_env) (sid : bytes)           (* a whole stream over a pipe; sid = id minted *)
-| OInit (node : nat) (q : req_env) (sid : bytes) (opened : bool)
+| OInit (node : nat) (q : req_env) (sid : bytes) (opened : bool) (hooked : bool)
       (* HTTP POST /m/init; sid = id minted (crypto/rand oracle); opened = a
-         stream state was created and tokens were returned *)
-| OCont (node : nat) (stream : nat) (t : tamper) (cancel : bool) (q : req_env) (fresh : bytes)
+         stream state was created and tokens were returned; hooked = the serving
+         process had the access-log hook installed at that moment *)
+| OCont (node : nat) (stream : nat) (t : tamper) (cancel : bool) (q : req_env) (fresh : bytes) (hooked : bool)
       (* HTTP POST /m/exchange echoing the tokens of the stream opened by op
          number [stream]; fresh = what RandomStreamID would return *)
-| ORejected (q : req_env).                          (* refused before dispatch: no record *)
+| ORejected (q : req_env)                           (* refused before dispatch: no record *)
+| ONoop.                                            (* configuration change (a hook installed on a node) *)
 
 (* call token = sealed (call id, stream id); the call id is the number of the
    init op (crypto/rand: pairwise distinct) *)
@@ -445,14 +447,20 @@ Record stream_st := { t_call : nat; t_sid : bytes }.
 Record state := {
   st_next : nat;                       (* number of the next op *)
   st_streams : list stream_st;         (* tokens the client holds *)
-  st_cache : list (nat * bytes) }.     (* node 0 call-state cache: call id -> stream id *)
+  st_cache : list ((nat * nat) * bytes) }.   (* per-node call-state caches: (node, call id) -> stream id *)
+
+(* node 1 runs with SetCallStateCacheEntries(0); every other node caches *)
+Definition caching (node : nat) : bool := negb (Nat.eqb node 1).
 
 Definition init_state : state := {| st_next := 0; st_streams := []; st_cache := [] |}.
 
 Fixpoint find_stream (c : nat) (l : list stream_st) : option stream_st :=
   match l with [] => None | s :: t => if Nat.eqb (t_call s) c then Some s else find_stream c t end.
-Fixpoint cache_get (c : nat) (l : list (nat * bytes)) : option bytes :=
-  match l with [] => None | (k, v) :: t => if Nat.eqb k c then Some v else cache_get c t end.
+Fixpoint cache_get (node c : nat) (l : list ((nat * nat) * bytes)) : option bytes :=
+  match l with
+  | [] => None
+  | ((n, k), v) :: t => if Nat.eqb n node && Nat.eqb k c then Some v else cache_get node c t
+  end.
 
 Definition dinfo_of (q : req_env) (stream : bool) (with_payload : bool) (sid fresh : bytes) (cancel : bool)
   (with_batch_id : bool) : dinfo :=
@@ -471,15 +479,15 @@ Definition resolve (node : nat) (st : state) (s : stream_st) (t : tamper) : opti
   match t with
   | TCursor => None
   | _ =>
-    match (if Nat.eqb node 0 then cache_get (t_call s) (st_cache st) else None) with
+    match (if caching node then cache_get node (t_call s) (st_cache st) else None) with
     | Some sid => Some (sid, st)
     | None =>
         match t with
         | TCallToken | TDropCallToken => None
         | _ => Some (t_sid s,
-                     if Nat.eqb node 0
+                     if caching node
                      then {| st_next := st_next st; st_streams := st_streams st;
-                             st_cache := (t_call s, t_sid s) :: st_cache st |}
+                             st_cache := ((node, t_call s), t_sid s) :: st_cache st |}
                      else st)
         end
     end
@@ -493,22 +501,24 @@ Definition step (st : state) (o : op) : list jrec * state :=
   | ODirect d => ([assemble d], bump st)
   | OUnary q => ([assemble (dinfo_of q false true [] [] false true)], bump st)
   | OPipeStream q sid => ([assemble (dinfo_of q true true sid sid false true)], bump st)
-  | OInit node q sid opened =>
+  | OInit node q sid opened hooked =>
+      (* the id is minted and sealed in the call token whether or not anything logs *)
       let st' := if opened
                  then {| st_next := n; st_streams := {| t_call := n; t_sid := sid |} :: st_streams st;
-                         st_cache := if Nat.eqb node 0 then (n, sid) :: st_cache st else st_cache st |}
+                         st_cache := if caching node then ((node, n), sid) :: st_cache st else st_cache st |}
                  else st in
-      ([assemble (dinfo_of q true true sid sid false true)], bump st')
-  | OCont node c t cancel q fresh =>
+      (if hooked then [assemble (dinfo_of q true true sid sid false true)] else [], bump st')
+  | OCont node c t cancel q fresh hooked =>
       match find_stream c (st_streams st) with
       | None => ([], bump st)
       | Some s =>
           match resolve node st s t with
           | None => ([], bump st)
-          | Some (sid, st') => ([assemble (dinfo_of q true false sid fresh cancel false)], bump st')
+          | Some (sid, st') =>
+              (if hooked then [assemble (dinfo_of q true false sid fresh cancel false)] else [], bump st')
           end
       end
-  | ORejected _ => ([], bump st)
+  | ORejected _ | ONoop => ([], bump st)
   end.
 
 Fixpoint run_from (st : state) (ops : list op) : list (list jrec) :=
@@ -548,9 +558,9 @@ Definition op_wf (o : op) : bool :=
   match o with
   | ODirect d => dinfo_wf d
   | OUnary q => q_wf true q
-  | OPipeStream q sid | OInit _ q sid _ => q_wf true q && lower_hex 32 sid
-  | OCont _ _ _ _ q _ => q_wf false q
-  | ORejected _ => true
+  | OPipeStream q sid | OInit _ q sid _ _ => q_wf true q && lower_hex 32 sid
+  | OCont _ _ _ _ q _ _ => q_wf false q
+  | ORejected _ | ONoop => true
   end.
 Definition input_wf (i : list op) : bool := forallb op_wf i.
 
@@ -564,7 +574,8 @@ Definition obs := list obs1.
 Definition op_egress (o : op) : option egress :=
   match o with
   | ODirect d => d_egress d
-  | OUnary q | OPipeStream q _ | OInit _ q _ _ | OCont _ _ _ _ q _ | ORejected q => q_egress q
+  | OUnary q | OPipeStream q _ | OInit _ q _ _ _ | OCont _ _ _ _ q _ _ | ORejected q => q_egress q
+  | ONoop => None
   end.
 
 (* net/http delivers exactly the bytes accepted by the ResponseWriter *)
@@ -596,15 +607,30 @@ Definition obs_eqb (a b : obs) : bool := list_eqb obs1_eqb a b.
 Definition sid_of (r : jrec) : option bytes :=
   match lookup K_stream_id r with Some (JStr s) => Some s | _ => None end.
 
-(* the stream id logged by the request that opened stream [c] *)
-Definition init_sid (c : nat) (o : obs) : option bytes :=
-  match nth_error o c with
-  | Some x => match ob_records x with r :: _ => sid_of r | [] => None end
-  | None => None
+(* request number j belongs to the stream opened by request number c: the
+   harness knows this from the tokens it echoed, not from any logged id *)
+Definition in_stream (c j : nat) (o : op) : bool :=
+  match o with
+  | OInit _ _ _ _ _ => Nat.eqb j c
+  | OCont _ c' _ _ _ _ _ => Nat.eqb c' c
+  | _ => false
   end.
 
-Definition same_sid (c : nat) (all : obs) (r : jrec) : bool :=
-  match init_sid c all, sid_of r with
+(* the first stream id logged for stream c, scanning the whole history in order *)
+Fixpoint first_sid (c j : nat) (ops : list op) (os : obs) : option bytes :=
+  match ops, os with
+  | o :: ops', x :: os' =>
+      match (if in_stream c j o then ob_records x else []) with
+      | r :: _ => sid_of r
+      | [] => first_sid c (S j) ops' os'
+      end
+  | _, _ => None
+  end.
+
+(* every record of one stream carries the id of the stream's first record:
+   all records of the stream carry one and the same id *)
+Definition same_sid (c : nat) (ops : list op) (all : obs) (r : jrec) : bool :=
+  match first_sid c 0 ops all, sid_of r with
   | Some a, Some b => beqb a b
   | _, _ => false
   end.
@@ -623,21 +649,23 @@ Definition describes_q (q : req_env) (needs_payload : bool) (x : obs1) (r : jrec
      | None => negb (has K_request_bytes r) && negb (has K_response_bytes r)
      end.
 
-Definition describes (all : obs) (o : op) (x : obs1) (r : jrec) : bool :=
+Definition describes (ops : list op) (all : obs) (j : nat) (o : op) (x : obs1) (r : jrec) : bool :=
   match o with
   | ODirect d =>
       claims_part (d_redactor d) (d_auth d) r && (if has_payload d then has_payload_or_marker r else true)
-  | OUnary q | OPipeStream q _ | OInit _ q _ _ => describes_q q true x r
-  | OCont _ c _ _ q _ => describes_q q false x r && same_sid c all r   (* same id as the init of this stream *)
-  | ORejected _ => false                            (* refused before dispatch: nothing may be logged *)
+  | OUnary q | OPipeStream q _ => describes_q q true x r
+  | OInit _ q _ _ _ => describes_q q true x r && same_sid j ops all r
+  | OCont _ c _ _ q _ _ => describes_q q false x r && same_sid c ops all r
+  | ORejected _ | ONoop => false                    (* nothing may be logged *)
   end.
 
-Fixpoint spec_from (all : obs) (ops : list op) (os : obs) : bool :=
+Fixpoint spec_from (ops0 : list op) (all : obs) (j : nat) (ops : list op) (os : obs) : bool :=
   match ops, os with
   | [], [] => true
   | o :: ops', x :: os' =>
-      forallb (fun r => record_ok r && describes all o x r) (ob_records x) && spec_from all ops' os'
+      forallb (fun r => record_ok r && describes ops0 all j o x r) (ob_records x)
+      && spec_from ops0 all (S j) ops' os'
   | _, _ => false
   end.
 
-Definition spec_ok (i : input) (o : obs) : bool := spec_from o i o.
+Definition spec_ok (i : input) (o : obs) : bool := spec_from i o 0 i o.
